@@ -76,7 +76,14 @@ class Ov:
     def __init__(self, params, generics, tag, level="top"):
         self.params, self.generics, self.tag, self.level = params, tuple(generics), tag, level
 
-    def decl(self, name, rename=False):
+    def decl(self, name, rename=False, inner_call=None):
+        """inner_call: text of a call placed (never executed) inside the body: it is resolved with the overloads visible *inside* this body"""
+        text = self._decl(name, rename)
+        if inner_call is not None:
+            text = text[:text.rindex("{")] + "{ if(true, " + str(self.tag) + ", " + inner_call + ") }"
+        return text
+
+    def _decl(self, name, rename=False):
         gens = list(self.generics)
         names = [f"p{i}" for i in range(len(self.params))]
         if rename:
@@ -107,6 +114,10 @@ def _sub_word(text, w, rep):
 
 
 def default_for(t):
+    if t in ("Sequence<T>", "Sequence<Sequence<T>>", "Sequence<U>"):
+        return "[]"
+    if t in ("Optional<T>", "Optional<U>"):
+        return "none()"
     return {"int": "0", "str": "'d'", "bool": "false", "float": "0.5", "S0": "S0(0)", "Sequence<int>": "[0]", "Sequence<str>": "['d']", "Optional<int>": "none()", "(int, str)": "(0, 'd')",
             "Sequence<Sequence<int>>": "[]"}[t]
 
@@ -132,9 +143,9 @@ def rand_overload(rng, tag, arity_hint):
         if not gens:
             params[0] = ("T", False)
             gens.add("T")
-        # trailing concrete parameters may be optional
+        # trailing parameters may be optional when a default can be written for their type
         for i in range(n - 1, -1, -1):
-            if params[i][0] in CONCRETE and rng.random() < 0.3:
+            if (params[i][0] in CONCRETE or params[i][0] in ("Sequence<T>", "Optional<T>", "Sequence<Sequence<T>>")) and rng.random() < 0.35:
                 params[i] = (params[i][0], True)
             else:
                 break
@@ -191,11 +202,18 @@ def lib_matches(o, arg_types):
     return all(unify(p, a, env) for p, a in zip(o.params, arg_types))
 
 
-def program(name, ovs, call_args, order, inner_mask, rename=False):
+def program(name, ovs, call_args, order, inner_mask, rename=False, body_only=None):
+    """body_only = index of the overload (declared last, inside the host function) whose body holds the only call"""
     top, inner = [], []
+    call = f"{name}(" + ", ".join(ARGS[a] for a in call_args) + ")"
+    if body_only is not None:
+        for i in order:
+            if i != body_only:
+                (inner if inner_mask[i] else top).append(ovs[i].decl(name, rename))
+        inner.append(ovs[body_only].decl(name, rename, inner_call=call))
+        return PRELUDE + "\n".join(top) + "\nfn host_()->int{\n    " + "\n    ".join(inner) + "\n    0\n}\nlet r = host_();\n"
     for i in order:
         (inner if inner_mask[i] else top).append(ovs[i].decl(name, rename))
-    call = f"{name}(" + ", ".join(ARGS[a] for a in call_args) + ")"
     body = PRELUDE + "\n".join(top) + "\n"
     if inner:
         body += "fn host_()->int{\n    " + "\n    ".join(inner) + "\n    " + call + "\n}\nlet r = host_();\n"
@@ -242,8 +260,10 @@ def make_cases(ctx):
                     else:
                         args.append(rng.choice(["int", "str", "Sequence<int>", "Optional<int>", "(int, str)", "Sequence<Sequence<int>>"]))
             else:
-                args = [rng.choice(list(ARGS)) for _ in range(rng.choice([arity, arity, max(0, arity - 1), arity + 1]))]
+                args = [rng.choice(list(ARGS)) for _ in range(rng.choice([arity, arity, max(0, arity - 1), arity + 1, 0]))]
             calls.append(args)
+        if any(all(op for _, op in o.params) for o in ovs):
+            calls.append([])            # a zero-argument call whenever some overload can take it
         for args in calls:
             arg_types = [P(a) for a in args]
             ref = reference(ovs, lib, dyn, arg_types)
@@ -262,11 +282,20 @@ def make_cases(ctx):
             rng.shuffle(order)
             variants.append(("non_matching_added", tuple(order), [False] * len(extra), False, extra))
             gid = len(groups)
-            groups.append({"name": name, "set": [o.decl(name) for o in ovs], "args": args, "reference": ref, "lib": bool(lib), "dyn": dyn, "members": []})
+            groups.append({"name": name, "set": [o.decl(name) for o in ovs], "args": args, "reference": ref, "lib": bool(lib), "dyn": dyn, "members": [], "body_members": []})
             for kind, order, msk, ren, oo in variants:
                 cases.append({"id": f"C05-{gid}-{kind}-{len(cases)}", "source": program(name, oo, args, order, msk, ren), "exports": ["r"], "dump": {"per": 4, "nodes": 20},
                               "meta": {"group": gid, "variant": kind}})
                 groups[gid]["members"].append(len(cases) - 1)
+            # the same call written only inside the body of one of the overloads (declared last, in the enclosing function): it is resolved among
+            # the overloads visible in that body, itself included; not executed, so only accepted / error class is observed
+            if not libname and ovs:
+                for _ in range(2):
+                    j = rng.randrange(len(ovs))
+                    msk = [rng.random() < 0.4 for _ in ovs]
+                    cases.append({"id": f"C05-{gid}-in_body-{len(cases)}", "source": program(name, ovs, args, tuple(range(len(ovs))), msk, False, body_only=j), "exports": ["r"],
+                                  "dump": {"per": 4, "nodes": 20}, "meta": {"group": gid, "variant": "call_inside_an_overload_body"}})
+                    groups[gid]["body_members"].append(len(cases) - 1)
     return cases, groups
 
 
@@ -314,6 +343,16 @@ def run(ctx):
                 kind = f"{ref[0]}{':' + str(ref[1]) if ref[0] == 'err' else ''}_expected_but_{base[0]}{':' + str(base[1]) if base[0] == 'err' else ''}"
                 ctx.verdicts.violation(f"ranking|{'library_name' if g['lib'] or g['dyn'] else 'fresh_name'}|{kind}", cases[res[0][2]],
                                        {"overloads": g["set"], "arguments": g["args"], "expected": ref, "observed": base})
+        # (1b) the call resolved inside an overload's body: accepted exactly when the reference selects something, else the same error class
+        for i in g.get("body_members", []):
+            ob = outs[i]
+            if ref[0] == "unspecified" or ob[0] == "inconclusive":
+                continue
+            want_b = ("err", ref[1]) if ref[0] == "err" else ("accepted",)
+            got_b = ob if ob[0] == "err" else ("accepted",) if ob[0] in ("lib", "tag") else ob
+            if tuple(want_b) != tuple(got_b):
+                ctx.verdicts.violation(f"ranking|inside_overload_body|{want_b[0]}{':' + str(want_b[1]) if len(want_b) > 1 else ''}_expected_but_{got_b[0]}{':' + str(got_b[1]) if len(got_b) > 1 else ''}",
+                                       cases[i], {"overloads": g["set"], "arguments": g["args"], "expected": want_b, "observed": ob})
         # (2) metamorphic: every variant has the outcome of the first
         diff = [(v, o2) for v, o2, _ in res[1:] if o2 != base]
         if diff:
